@@ -509,6 +509,8 @@ def cdrv_run(ctx, name, variant, san, what, scale=1.0, shards=None, gen_extra=No
                                        "seed": ctx.seed, "tier": ctx.tier, "scale": scale})
                 else:
                     other[sig] = other.get(sig, 0) + 1
+            elif line.startswith("T idx="):
+                ctx.note_inconclusive("%s shard %d: %s" % (name, i, line[:160]))
             elif line.startswith("KC ") or line.startswith("AC "):
                 _, k, v = line.split()
                 kc[k] = kc.get(k, 0) + int(v)
